@@ -35,3 +35,66 @@ Proof.
     apply guard_nil, opt_str_eqb_eq in G4. exact G4.
 Qed.
 Print Assumptions C08_checker_sound.
+
+(* Part 2: universal theorems over the generator model, for every description that compiles.
+   (a) an interface carries one bus object per protocol its endpoint descriptor lists, manager protocols
+       as inputs (requests enter), subordinate protocols as outputs, named after the descriptor, with the
+       descriptor's array shape and the interface's own array index;
+   (b) such a bus declares <endpoint>_<protocol>_req_i / _rsp_o (manager) resp. _req_o / _rsp_i
+       (subordinate) with the protocol's request / response types and the array shape without unit
+       dimensions;
+   (c) the element an interface binds is [i][j] (unit dimensions skipped) of its own index -- the index in
+       its enumeration name E_x<i>_y<j>, and (C01_holds, array_slot_2d) the owner of address slot i*cols+j;
+   (d) on an axi network the subordinate / manager side of an interface is enabled iff the descriptor
+       lists a protocol for it, and a side without bus is tied off ('0 in, open out). *)
+From FV Require Import Graph Desc Build Compile Routing Emit ModelBase ModelProofs AxiProofs.
+
+Lemma compiled_ni_origin d g c x : compile d g = Ok c -> In x (c_nis c) ->
+  exists ni, In ni (nodes_of_type g NNi) /\ compile_ni d g ni = Ok x.
+Proof.
+  intros Hc Hx. destruct (compile_inv _ _ _ Hc) as (dirs & nis & rts & rids & Hn & _ & ->). cbn in Hx.
+  destruct (mapM_In _ _ _ _ Hn Hx) as (ni & Hni & Hq). eauto.
+Qed.
+
+Theorem C08_model_buses : forall d g c x, compile d g = Ok c -> In x (c_nis c) ->
+  Forall (bus_ok (cn_ep x) "input" (cn_arr x)) (cn_mgr_buses x) /\
+  map (fun b => p_name (b_proto b)) (cn_mgr_buses x) = match ep_mgr (cn_ep x) with Some ns => ns | None => [] end /\
+  Forall (bus_ok (cn_ep x) "output" (cn_arr x)) (cn_sbr_buses x) /\
+  map (fun b => p_name (b_proto b)) (cn_sbr_buses x) = match ep_sbr (cn_ep x) with Some ns => ns | None => [] end.
+Proof.
+  intros d g c x Hc Hx. destruct (compiled_ni_origin d g c x Hc Hx) as (ni & _ & Hq).
+  destruct (compile_ni_buses d g ni x Hq) as (Ha & _ & M1 & M2 & S1 & S2). rewrite Ha. auto.
+Qed.
+Print Assumptions C08_model_buses.
+
+Definition C08_model_statement : Prop :=
+  (forall e arr b, bus_ok e "input" arr b -> bus_ports b =
+     [{| pd_dir := "input"; pd_type := type_name (b_proto b) +++ "_req_t"; pd_dims := bus_dims b;
+         pd_name := (ep_name e +++ "_" +++ p_name (b_proto b)) +++ "_req_i" |};
+      {| pd_dir := "output"; pd_type := type_name (b_proto b) +++ "_rsp_t"; pd_dims := bus_dims b;
+         pd_name := (ep_name e +++ "_" +++ p_name (b_proto b)) +++ "_rsp_o" |}]) /\
+  (forall e arr b, bus_ok e "output" arr b -> bus_ports b =
+     [{| pd_dir := "output"; pd_type := type_name (b_proto b) +++ "_req_t"; pd_dims := bus_dims b;
+         pd_name := (ep_name e +++ "_" +++ p_name (b_proto b)) +++ "_req_o" |};
+      {| pd_dir := "input"; pd_type := type_name (b_proto b) +++ "_rsp_t"; pd_dims := bus_dims b;
+         pd_name := (ep_name e +++ "_" +++ p_name (b_proto b)) +++ "_rsp_i" |}]) /\
+  (forall e role arr b, bus_ok e role arr b ->
+     bus_dims b = match ep_array e with Some a => filter (fun x => negb (x =? 1)) a | None => [] end) /\
+  (forall e role i j m n b, bus_ok e role (Some [i; j]) b -> ep_array e = Some [m; n] ->
+     bus_idx b = (if m =? 1 then "" else "[" +++ Z_to_string i +++ "]") +++ (if n =? 1 then "" else "[" +++ Z_to_string j +++ "]")) /\
+  (forall e role i n b, bus_ok e role (Some [i]) b -> ep_array e = Some [n] ->
+     bus_idx b = if n =? 1 then "" else "[" +++ Z_to_string i +++ "]") /\
+  (forall x i j, cn_arr x = Some [i; j] ->
+     enum_name x = ep_name (cn_ep x) +++ "_x" +++ Z_to_string i +++ "_y" +++ Z_to_string j) /\
+  (forall d off x, d_nw d = false ->
+     ni_flags (emit_ni d off x) =
+       [("ChimneyCfg", (is_some (pick_bus false "" (cn_sbr_buses x)), is_some (pick_bus false "" (cn_mgr_buses x))))] /\
+     ni_axi (emit_ni d off x) = ni_bindings "axi_" (pick_bus false "" (cn_mgr_buses x)) (pick_bus false "" (cn_sbr_buses x))) /\
+  (forall l, (l = [] /\ pick_bus false "" l = None) \/ (l <> [] /\ exists b, pick_bus false "" l = Some b /\ In b l)).
+
+Theorem C08_model_holds : C08_model_statement.
+Proof.
+  exact (conj bus_ports_mgr (conj bus_ports_sbr (conj bus_dims_spec (conj bus_idx_2d (conj bus_idx_1d
+        (conj enum_name_2d (conj emit_ni_flags_axi pick_bus_axi))))))).
+Qed.
+Print Assumptions C08_model_holds.
